@@ -319,3 +319,27 @@ package ops
 //@   ensures incompatible_refused: !bcompat(A, B) ==> err != nil
 //@   ensures err != nil ==> result == nil
 //@   ensures result_shape: err == nil ==> bcompat(A, B) && result != nil && fresh(result) && allocated(result) && dtype(result) == Bool && bshape_is(result, A, B)
+
+// ---------------------------------------------------------------------------------------
+// Shape helpers (C07, C08, C09)
+
+//@ func NElements
+//@   tags C07,C04,C06
+//@   ensures result == nelems(shp)
+//@   loop 1 invariant nElem == prod(arr(shp), off(shp), $i)
+
+//@ func AnyToIntSlice
+//@   tags C07,C08,C09
+//@   ensures unsupported_refused: typeof(value) != tagof("[]int8") && typeof(value) != tagof("[]int16") && typeof(value) != tagof("[]int32") && typeof(value) != tagof("[]int64") ==> err != nil && result == nil
+//@   ensures int64s: typeof(value) == tagof("[]int64") ==> err == nil && len(result) == len(unbox(value, "[]int64")) && (result == nil || fresh(result)) &&
+//@          (forall k :: 0 <= k && k < len(result) ==> result[k] == unbox(value, "[]int64")[k])
+//@   ensures int32s: typeof(value) == tagof("[]int32") ==> err == nil && len(result) == len(unbox(value, "[]int32")) && (result == nil || fresh(result)) &&
+//@          (forall k :: 0 <= k && k < len(result) ==> result[k] == unbox(value, "[]int32")[k])
+//@   ensures int16s: typeof(value) == tagof("[]int16") ==> err == nil && len(result) == len(unbox(value, "[]int16")) && (result == nil || fresh(result)) &&
+//@          (forall k :: 0 <= k && k < len(result) ==> result[k] == unbox(value, "[]int16")[k])
+//@   ensures int8s: typeof(value) == tagof("[]int8") ==> err == nil && len(result) == len(unbox(value, "[]int8")) && (result == nil || fresh(result)) &&
+//@          (forall k :: 0 <= k && k < len(result) ==> result[k] == unbox(value, "[]int8")[k])
+//@   loop 1 invariant len(res) == $i && (res == nil || fresh(res)) && (forall k :: 0 <= k && k < $i ==> res[k] == $range[k])
+//@   loop 2 invariant len(res) == $i && (res == nil || fresh(res)) && (forall k :: 0 <= k && k < $i ==> res[k] == $range[k])
+//@   loop 3 invariant len(res) == $i && (res == nil || fresh(res)) && (forall k :: 0 <= k && k < $i ==> res[k] == $range[k])
+//@   loop 4 invariant len(res) == $i && (res == nil || fresh(res)) && (forall k :: 0 <= k && k < $i ==> res[k] == $range[k])
